@@ -31,10 +31,23 @@ Theorem inner_join_eq_nested_loop : forall self other cs co prefix ks ko,
     rows t = spec_inner_join (hdr self) (rows self) (hdr other) (rows other) ks ko.
 Proof. exact joined_inner_nested_loop. Qed.
 
+(** natural join (no key columns given): the join on the same-named columns, in
+    self's order, whatever their order in other *)
 Theorem natural_join_keys : forall self other,
   join_keys self other None None =
-  Ok (filter (fun c => mem_str c (hdr other)) (hdr self), filter (fun c => mem_str c (hdr self)) (hdr other)).
+  Ok (filter (fun c => mem_str c (hdr other)) (hdr self), filter (fun c => mem_str c (hdr other)) (hdr self)).
 Proof. exact join_keys_natural. Qed.
+
+Theorem natural_join_eq_nested_loop : forall self other prefix,
+  wf self -> wf other -> hdr self <> [] ->
+  let ks := filter (fun c => mem_str c (hdr other)) (hdr self) in
+  ks <> [] ->
+  NoDup (spec_join_header (hdr self) (hdr other) ks prefix) ->
+  exists t,
+    joined self other None None true prefix = Ok t /\ wf t /\
+    hdr t = spec_join_header (hdr self) (hdr other) ks prefix /\
+    rows t = spec_inner_join (hdr self) (rows self) (hdr other) (rows other) ks ks.
+Proof. exact natural_join_same_named. Qed.
 
 Theorem explicit_join_keys : forall self other a b,
   length a = length b -> join_keys self other (Some a) (Some b) = Ok (a, b).
@@ -285,16 +298,3 @@ Proof. exact cast_int_float. Qed.
 
 Theorem literal_text_in_text_column : cast_str_to_array [s_True; [120]; s_None] = Ok [CB true; CS [120]; CN].
 Proof. exact cast_literals_in_text. Qed.
-
-(** ---------------------------------------------------------------- natural join: key pairing
-
-    [natural_join_keys] above is what the code does: the shared names in self's
-    order are paired BY POSITION with the shared names in other's order.  When
-    the two tables list the shared columns in a different order this is not the
-    join on the same-named columns: *)
-Theorem natural_join_shared_columns_order_refuted :
-  wf nj_self /\ wf nj_other /\
-  exists t, joined nj_self nj_other None None true right_ = Ok t /\
-    let ks := filter (fun c => mem_str c (hdr nj_other)) (hdr nj_self) in
-    rows t <> spec_inner_join (hdr nj_self) (rows nj_self) (hdr nj_other) (rows nj_other) ks ks.
-Proof. exact natural_join_by_position_refuted. Qed.
